@@ -93,7 +93,12 @@ def _sync_oss(eng, st, os_):
     o = st.alloc(max(len(cells), 1), 'heap:malloc', 'ostringstream buffer (model)', fill=0)
     o.data[:len(cells)] = list(cells)
     sb = os_ + 8
-    eng.mem_write(st, sb + 32, int_cells(o.base, 8) + int_cells(o.base + len(cells), 8) + int_cells(o.base + len(cells), 8))
+    pos = st.ext.get(('ospos', os_))
+    if pos is None:
+        pos = len(cells)
+    # get area end = high-water mark (what str() returns when the put pointer was moved back), put area: pbase, pptr, epptr
+    eng.mem_write(st, sb + 8, int_cells(o.base, 8) + int_cells(o.base, 8) + int_cells(o.base + len(cells), 8))
+    eng.mem_write(st, sb + 32, int_cells(o.base, 8) + int_cells(o.base + pos, 8) + int_cells(o.base + len(cells), 8))
 
 
 def _append(eng, st, os_, cells, pad=True):
@@ -113,8 +118,32 @@ def _append(eng, st, os_, cells, pad=True):
             cells = cells + padc if (fl & 0xb0) == F_LEFT else padc + cells
         eng.mem_write(st, ios + IOS_WIDTH, int_cells(0, 8))
     buf = st.ext.get(('os', os_), [])
-    st.ext[('os', os_)] = buf + cells
+    pos = st.ext.get(('ospos', os_))
+    if pos is None or pos >= len(buf):
+        st.ext[('os', os_)] = buf + cells
+    else:                                     # the put position was moved back (seekp): overwrite, then extend
+        st.ext[('os', os_)] = buf[:pos] + cells + buf[pos + len(cells):]
+        st.ext[('ospos', os_)] = pos + len(cells) if pos + len(cells) < len(st.ext[('os', os_)]) else None
     _sync_oss(eng, st, os_)
+    return os_
+
+
+@ext('_ZNSo5seekpESt4fposI11__mbstate_tE')
+def x_ostream_seekp(eng, st, a):
+    """ostream::seekp(pos) on the sink model ([ostream.seeks]): valid positions are 0..size of the sequence"""
+    os_ = a[0]
+    ios = _ios_of(eng, st, os_)
+    state = cells_int(eng.mem_read(st, ios + IOS_STATE, 4))
+    if type(state) is int and state & 5:
+        return os_
+    pos = a[1] if type(a[1]) is int else eng.concretize(st, a[1], 'seekp position')
+    pos = sext_const(pos, 64)
+    buf = st.ext.get(('os', os_), [])
+    if 0 <= pos <= len(buf):
+        st.ext[('ospos', os_)] = pos if pos < len(buf) else None
+        _sync_oss(eng, st, os_)
+    else:
+        eng.mem_write(st, ios + IOS_STATE, int_cells((state if type(state) is int else 0) | 4, 4))
     return os_
 
 
@@ -231,6 +260,64 @@ def x_iosbase(eng, st, a):
 def x_ios_init(eng, st, a):
     _ios_init(eng, st, a[0])
     eng.mem_write(st, a[0] + 232, int_cells(a[1], 8))
+
+
+# ---- std::ifstream over the model file table (vs_file).  Object layout as in libstdc++ (istream part at 0, filebuf at 16,
+# __basic_file at 120, basic_ios virtual base at 256); getline() is C++ code in rt_support.cpp on top of vs_istream_getc().
+IFS_VBASE, IFS_FILEBUF, IFS_FILE = 256, 16, 120
+
+
+@ext('vs_file')
+def x_vs_file(eng, st, a):
+    path = eng.cstr_bytes(st, a[0]); n = _len(eng, st, a[2], 'file length')
+    files = dict(st.ext.get('files') or {}); files[path] = list(eng.mem_read(st, a[1], n)) if n else []
+    st.ext['files'] = files
+
+
+@ext('_ZNSt14basic_ifstreamIcSt11char_traitsIcEEC1EPKcSt13_Ios_Openmode', '_ZNSt14basic_ifstreamIcSt11char_traitsIcEEC2EPKcSt13_Ios_Openmode')
+def x_ifs_ctor(eng, st, a):
+    p = a[0]
+    eng.mem_write(st, p, [0] * (IFS_VBASE + 264))
+    eng.mem_write(st, p, int_cells(eng.irm.gaddr['model_vtable_St14basic_ifstreamIcSt11char_traitsIcEE'], 8))
+    _ios_init(eng, st, p + IFS_VBASE)
+    path = eng.cstr_bytes(st, a[1])
+    data = (st.ext.get('files') or {}).get(path)
+    st.ext[('ifs', p)] = dict(data=data or [], pos=0, open=data is not None)
+    if data is None:
+        eng.mem_write(st, p + IFS_VBASE + IOS_STATE, int_cells(4, 4))          # failbit
+
+
+@ext('_ZNKSt12__basic_fileIcE7is_openEv')
+def x_basic_file_is_open(eng, st, a):
+    f = st.ext.get(('ifs', a[0] - IFS_FILE))
+    return 1 if f and f['open'] else 0
+
+
+@ext('_ZNSt13basic_filebufIcSt11char_traitsIcEE5closeEv')
+def x_filebuf_close(eng, st, a):
+    f = st.ext.get(('ifs', a[0] - IFS_FILEBUF))
+    if not f or not f['open']:
+        return 0
+    st.ext[('ifs', a[0] - IFS_FILEBUF)] = dict(f, open=False)
+    return a[0]
+
+
+@ext('_ZNSt14basic_ifstreamIcSt11char_traitsIcEED1Ev', '_ZNSt14basic_ifstreamIcSt11char_traitsIcEED2Ev', '_ZNSt13basic_filebufIcSt11char_traitsIcEED2Ev', '_ZNSt13basic_filebufIcSt11char_traitsIcEED1Ev')
+def x_ifs_dtor(eng, st, a):
+    return 0
+
+
+@ext('vs_istream_getc')
+def x_istream_getc(eng, st, a):
+    f = st.ext.get(('ifs', a[0]))
+    if f is None:
+        raise EngineError('input from a stream that is not a modelled std::ifstream')
+    if not f['open'] or f['pos'] >= len(f['data']):
+        return 0xffffffff
+    c = f['data'][f['pos']]
+    st.ext[('ifs', a[0])] = dict(f, pos=f['pos'] + 1)
+    e = _cell_expr(c)
+    return e if isinstance(e, int) else simp(z3.ZeroExt(24, e))
 
 
 # ---- threads (single-threaded exploration: locks always succeed)
@@ -450,6 +537,51 @@ def x_time(eng, st, a):
     return t
 
 
+# ---- calendar: localtime()/strftime() by their libc contract, time zone UTC (harnesses set TZ=UTC0 for the native replay).
+# The broken-down time and the text are computed by the C library of the host for the concrete time stamp
+# (python's time.gmtime/time.strftime call gmtime_r/strftime); symbolic time stamps are outside the model.
+@ext('localtime', 'gmtime')
+def x_localtime(eng, st, a):
+    import time as _t
+    t = cells_int(eng.mem_read(st, a[0], 8))
+    if not isinstance(t, int):
+        raise EngineError('localtime(): symbolic time stamp')
+    t = sext_const(t, 64)
+    g = _t.gmtime(t)
+    o = st.ext.get('tm_obj')
+    if o is None:
+        o = st.alloc(56, 'global', 'localtime::tm', fill=0).base; st.ext['tm_obj'] = o
+    fields = [g.tm_sec, g.tm_min, g.tm_hour, g.tm_mday, g.tm_mon - 1, g.tm_year - 1900, (g.tm_wday + 1) % 7, g.tm_yday - 1, 0]
+    for i, v in enumerate(fields):
+        eng.mem_write(st, o + 4 * i, int_cells(v & 0xffffffff, 4))
+    eng.mem_write(st, o + 40, int_cells(0, 8)); eng.mem_write(st, o + 48, int_cells(0, 8))
+    return o
+
+
+@ext('strftime')
+def x_strftime(eng, st, a):
+    import time as _t
+    maxsize = _len(eng, st, a[1], 'strftime max')
+    fmt = eng.cstr_bytes(st, a[2]).decode('latin-1')
+    f = []
+    for i in range(9):
+        v = cells_int(eng.mem_read(st, a[3] + 4 * i, 4))
+        if not isinstance(v, int):
+            raise EngineError('strftime(): symbolic broken-down time')
+        f.append(sext_const(v, 32))
+    tup = (f[5] + 1900, f[4] + 1, f[3], f[2], f[1], f[0], (f[6] + 6) % 7, f[7] + 1, f[8])
+    out = _t.strftime(fmt, tup).encode('latin-1') if fmt else b''
+    if len(out) + 1 > maxsize:
+        return 0
+    eng.mem_write(st, a[0], list(out) + [0])
+    return len(out)
+
+
+@ext('setenv', 'tzset')
+def x_setenv(eng, st, a):
+    return 0
+
+
 @ext('getpid')
 def x_getpid(eng, st, a):
     return 4242
@@ -484,6 +616,10 @@ def x_va_end(eng, st, a, name):
 @ext_prefix('llvm.va_copy')
 def x_va_copy(eng, st, a, name):
     eng.mem_write(st, a[0], eng.mem_read(st, a[1], 24))
+
+
+class _PrintfFail(Exception):
+    """the conversion fails at run time (EILSEQ): the printf function returns a negative value"""
 
 
 def _format(eng, st, fmt_addr, nextarg):
@@ -526,6 +662,10 @@ def _format(eng, st, fmt_addr, nextarg):
                 if conv in b'di':
                     v = sext_const(v, bits)
                 piece = list((('%' + flags.decode() + (('.' + prec.decode()) if prec else '') + {'i': 'd', 'u': 'd'}.get(conv.decode(), conv.decode())) % v).encode())
+        elif conv in b'cs' and lng:
+            # wide character conversion: in the "C" locale a non-ASCII wide character cannot be converted, the call fails
+            # (contract: negative return value, buffer content unspecified); ASCII-only wide strings are not modelled
+            raise _PrintfFail()
         elif conv == b'c':
             v = nextarg(); piece = [v & 255] if type(v) is int else [(simp(z3.Extract(7, 0, v)), 0)]
         elif conv == b's':
@@ -575,7 +715,14 @@ def _emit(eng, st, buf, size, cells):
 @ext('vsnprintf')
 def x_vsnprintf(eng, st, a):
     size = _len(eng, st, a[1], 'vsnprintf size')
-    return _emit(eng, st, a[0], size, _format(eng, st, a[2], _va_reader(eng, st, a[3])))
+    try:
+        return _emit(eng, st, a[0], size, _format(eng, st, a[2], _va_reader(eng, st, a[3])))
+    except _PrintfFail:
+        junk = []
+        for i in range(min(size, 64)):
+            e = eng.fresh(st, '__unspecified', 8); junk.append(e if type(e) is int else (e, 0))
+        eng.mem_write(st, a[0], junk)
+        return 0xffffffff
 
 
 @ext('snprintf')
